@@ -27,6 +27,7 @@ def actOf (j : Json) : Option Act :=
     | "tick" => some (.tick (natAt a 1))
     | "cancel" => some (.cancel (natAt a 1))
     | "wake" => some .wake
+    | "snapshot" => some .snapshot
     | _ => none
   | _ => none
 
